@@ -73,7 +73,11 @@ def _arr(w, dims, lens, canon, order, X):
     from flodym import FlodymArray
 
     perm = [canon.index(l) for l in order]
-    vals = np.transpose(X, perm).copy() if len(canon) else X.copy()
+    # a transposed *view* of a private copy: permuted storage orders are also non-contiguous in memory, as they are
+    # when a user transposes data (memory-layout-dependent slips stay visible)
+    vals = np.transpose(X.copy(), perm) if len(canon) else X.copy()
+    if sum(i * p_ for i, p_ in enumerate(perm)) % 2:
+        vals = vals.copy()  # ... and every other permutation as a contiguous copy
     return FlodymArray(dims=make_dimset(order, lens, dims), values=vals, name="arr")
 
 
